@@ -11,13 +11,16 @@
 (*   vdl    : voltage_depend_loads        mode : "ac" | "dc"         tmodel : trafo_model "t" | "pi"                   *)
 (*   qlims  : enforce_q_lims              qtight : gens have tight reactive limits                                    *)
 (*   dslack : distributed_slack           wts  : slack weight pattern (1..3)                                          *)
-(*   scal   : "one" | "half" scaling of ld0 / sg0     shvn : "bus" | "other" rated voltage of the shunt               *)
+(*   scal   : "one" | "half" scaling of ld0 / sg0 / g2   shvn : "bus" | "other" rated voltage of the shunt             *)
+(*   sn     : net.sn_mva 1 | 10      ls2g : TRUE = default back-end choice (lightsim2grid where possible), FALSE = pandapower's *)
+(*            own Newton-Raphson      shpq : "std" | "equal" (shunt with p_mw = q_mvar, i.e. G = -B)                       *)
 (* Powers are micro-MW / micro-Mvar integers, voltages micro-pu, NaN is Fix!NaN.                                       *)
 EXTENDS Integers, Sequences, FiniteSets, TLC
 
 \* ---- structure ------------------------------------------------------------------------------------------------------
 Node == [e0  |-> [kind |-> "ext_grid", bus |-> 0],
          g0  |-> [kind |-> "gen", bus |-> 1],  g1 |-> [kind |-> "gen", bus |-> 1],  g2 |-> [kind |-> "gen", bus |-> 2],
+         g3  |-> [kind |-> "gen", bus |-> 0],                                   \* a PV generator at the ext_grid's own bus
          sg0 |-> [kind |-> "sgen", bus |-> 2], sg1 |-> [kind |-> "sgen", bus |-> 1],
          ld0 |-> [kind |-> "load", bus |-> 1], ld1 |-> [kind |-> "load", bus |-> 1], ld2 |-> [kind |-> "load", bus |-> 4],
          ld3 |-> [kind |-> "load", bus |-> 5],
